@@ -62,6 +62,16 @@ def h_pbc_tri():
     return cell, mf
 
 
+@cached
+def h_pbc_k3():
+    """three k-points along a1 (phases exp(2 pi i/3): not their own conjugates, unlike any 2x2x2 mesh), oblique cell"""
+    import pyscf.pbc.gto
+    import pyscf.pbc.scf
+    cell = pyscf.pbc.gto.M(atom="H 0.3 0.2 0.1; H 1.6 0.9 1.2", basis="sto-3g", unit="bohr", a=np.array([[3.6, 0, 0], [0.7, 4.4, 0], [0.2, -0.5, 4.8]]), verbose=0)
+    mf = pyscf.pbc.scf.KRKS(cell, cell.make_kpts((3, 1, 1))).run()
+    return cell, mf
+
+
 def randomize(wf, rng, skip=("mo_coeff", "det_coeff"), scale=0.3):
     for k in list(wf.parameters.keys()):
         if any(s in k for s in skip):
